@@ -244,9 +244,18 @@ def PP.final (u : PP α) : Final α :=
   { moles := u.moles + u.inert, d := -u.f, initial := if u.precipOnly then u.inert else u.initial,
     dissolveOnly := u.dissolveOnly, precipOnly := u.precipOnly }
 
-/-- `f` of a PP unknown as `mb_sums` accumulates it: `0 + lk·1 + si·1 + Σ la·(−ν)` in list order -/
+/-- `store_mb`: a term whose coefficient equals 1 within `TOL = 1e-9` goes to `sum_mb1` (added without multiply, in a
+first pass), any other term to `sum_mb2` (second pass, multiplied) -/
+def isOne (c : α) : Bool := equalTol c (lit 1) (lit (1 / 1000000000))
+
+/-- `mb_sums` for one target: first pass over the unit-coefficient terms, second pass over the others -/
+def mbSum (terms : List (α × α)) : α :=
+  let p1 := (terms.filter fun t => isOne t.1).foldl (fun acc t => acc + t.2) (lit 0)
+  (terms.filter fun t => !isOne t.1).foldl (fun acc t => acc + t.2 * t.1) p1
+
+/-- `f` of a PP unknown as `build_pure_phases` + `mb_sums` accumulate it: terms `(1, lk)`, `(1, si)`, `(−ν, la)…` -/
 def ppF (lk si : α) (toks : List (α × α)) : α :=
-  toks.foldl (fun acc t => acc + t.2 * (-t.1)) (lit 0 + lk * lit 1 + si * lit 1)
+  mbSum ((lit 1, lk) :: (lit 1, si) :: toks.map fun t => (-t.1, t.2))
 
 /-- `IAP` as `saturation_index` accumulates it -/
 def iapOf (toks : List (α × α)) : α := toks.foldl (fun acc t => acc + t.2 * t.1) (lit 0)
@@ -266,9 +275,9 @@ def ssIdeal (ns : List α) : List α :=
   let t := ssTotal ns
   ns.map fun n => n / t
 
-/-- `f` of an SS_MOLES unknown: `0 + lk − Σ ν·la + log10 x + log10 λ` in the order of `build_ss_assemblage` -/
+/-- `f` of an SS_MOLES unknown (`build_ss_assemblage`): terms `(1, lk)`, `(−ν, la)…`, `(1, log10 x)`, `(1, log10 λ)` -/
 def ssF (lk lfx llam : α) (toks : List (α × α)) : α :=
-  (toks.foldl (fun acc t => acc + t.2 * (-t.1)) (lit 0 + lk * lit 1)) + lfx * lit 1 + llam * lit 1
+  mbSum (((lit 1, lk) :: toks.map fun t => (-t.1, t.2)) ++ [(lit 1, lfx), (lit 1, llam)])
 
 /-- Guggenheim activity coefficients of a binary solid solution as coded in `ss_binary` (natural-log form):
 `ln λ_c = x_b²·(a0 − a1·(3 − 4·x_b))`, `ln λ_b = x_c²·(a0 + a1·(4·x_b − 1))` -/
